@@ -4,6 +4,7 @@ import (
 	"fmt"
 	"strconv"
 	"strings"
+	"sync/atomic"
 	"time"
 
 	"github.com/richardwilkes/toolbox/rate"
@@ -216,10 +217,32 @@ func (h *history) op(f []string) string {
 	return "bad-op"
 }
 
+// hungHistories counts the histories of this process that ended in a hang or timeout.  Each costs its 5 s deadline, so
+// after maxHung of them the remaining histories are not run (their lines are `inconclusive`, which never counts): the
+// hangs already seen decide the run.
+var hungHistories atomic.Int32
+
+const maxHung = 6
+
 // runHistory executes one history (`reset <rootCap>` and the lines after it).
 func runHistory(lines []string) []string {
 	out := make([]string, 0, len(lines))
 	var h *history
+	if hungHistories.Load() >= maxHung {
+		for _, line := range lines {
+			if strings.HasPrefix(line, "reset ") {
+				out = append(out, "reset")
+			} else {
+				out = append(out, "inconclusive")
+			}
+		}
+		return out
+	}
+	defer func() {
+		if h != nil && h.dead {
+			hungHistories.Add(1)
+		}
+	}()
 	defer func() {
 		if h != nil && !h.rootClosed && !h.dead && h.root != nil {
 			go h.root.Close() // stop the ticker; not part of the history
